@@ -75,6 +75,9 @@ let line l =
        let c = r_cfg c in
        if not (SsaPre.pre_ssa_ok c) then "(pre-ssa-hypotheses-unmet)"
        else if not (SsaPre.children_coverb (nl ch) (nat_of_int (Stdlib.List.length c.c_blocks))) then "(children-do-not-cover)"
+       (* the decidable hypotheses of C14_construction_paths_ok *)
+       else if not (SsaPre.ssa_dyn_pre_ok c) then "(dynamic-theorem-hypotheses-unmet)"
+       else if not (SsaPre.children_treeb (nl ch) (nat_of_int (Stdlib.List.length c.c_blocks))) then "(children-not-a-tree)"
        else "(pre-ssa-ok)"
      | _ -> "(badline)")
   | "erasecheck" ->
